@@ -84,3 +84,10 @@ package vm
 //@ spec fun okButLast() bool = forall k int :: 0 <= k && k < ncalls() - 1 ==> res(k) == nil
 // ASSUMPTION (parser): a map literal has as many values as keys
 //@ axiom auto_wfMapExprVM: forall m *ast.MapExpr :: m != nil ==> len(m.Keys) == len(m.Values)
+
+// further observers used by the trusted reflect contracts (C01)
+//@ spec fun rvCanAddr(v reflect.Value) bool
+//@ spec fun chanClosedOrNil(v reflect.Value) bool
+// calleeMayPanic(f): calling the function value f may panic — true of any host function, unknown to the verifier:
+// every reflect call of a function value must therefore sit inside a recover region
+//@ spec fun calleeMayPanic(f reflect.Value) bool
